@@ -289,3 +289,10 @@ OBLIGATIONS = [
         assumptions=["a well formed line is indentation (multiple of four blanks) [threshold blank] name [': ' argument] [blanks '#' blanks comment]",
                      "argument and comment are compared modulo surrounding blanks"]),
 ]
+
+MANIFEST = {
+    "level": "model_checking",
+    "text": "The operator scan / index / split / strip of the real _parse_tag_operator_value is executed symbolically (CrossHair/z3) with the tag name a symbolic string and operator, blanks and right-hand side as selectors; the decomposition over the full product operator x blanks x numeric form x every supported unit (live unit table), and of whole lines over indentation x threshold x every instruction name (live instruction_name_map) x argument x comment, is decided by exhaustive finite tables through the real _parse_line.",
+    "note": "Trusted: CrossHair's list-of-code-points string model for in/index/split/strip (results compared code point by code point because its == between differently represented symbolic strings is unreliable), z3. The regular expressions always run on concrete text: obligations tov_table and line_table are bounded exhaustive tables (concrete decision), not solver results. Tag names longer than 2 (quick) / 4 (thorough) characters in the symbolic obligation and fragments outside the catalogues are outside the claim.",
+    "technique": "symbolic execution of the real code (CrossHair + z3) with a symbolic string, counterexample replay; exhaustive finite tables over live catalogues",
+}
